@@ -5,5 +5,5 @@ import (
 )
 
 func main() {
-	vh.Main(vh.Harness{Property: "C11", Run: run, Replay: replay})
+	vh.Main(vh.Harness{Property: "C11", Run: superviseRun, Replay: replay})
 }
